@@ -225,6 +225,14 @@ func (c06) Case(c *core.Ctx) {
 		b = []byte([]string{"null", "1", `"s"`, "true", "", " ", "nul", "[]", "[1,2", "{}x", "{} {}", " null", "[null]", "nullx", "-", "1e999", "{", "}", "\xff", "\xef\xbb\xbf{}", "null [1]", "null{\"a\":1}", "1 [2]", "\"s\" {\"a\":1}", "null\n[1,2]", "true[", "nul[1]", "null \"[\""}[r.Intn(28)])
 	case 5:
 		b = append(b, []byte([]string{" trailing{", "}", "\n{\"a\":1}", ","}[r.Intn(4)])...)
+	case 7:
+		// a first value the decoder reads to its end but cannot store (a number outside the float64 range: a type
+		// error, not a syntax error - the decoder stays usable) followed by a well-formed value
+		num := []string{"1e400", "-1e999", "1e309", "123456789e400", "1.7976931348623159e308"}[r.Intn(5)]
+		first := []string{"[%s]", "[[%s]]", "[1,{\"k\":%s}]", "{\"n\":%s}", "{\"a\":[%s]}", " [%s,2]"}[r.Intn(6)]
+		second := []string{" {\"a\":1}", "{\"a\":1}", "\n[1,2]", " {}", "", " null"}[r.Intn(6)]
+		b = []byte(fmt.Sprintf(first, num) + second)
+		c.Count("accept:unstorable-number-then-value")
 	case 6:
 		// invalid UTF-8 inside a string value
 		b = bytes.Replace(b, []byte(`"`), []byte("\"\xff"), 1)
@@ -255,7 +263,7 @@ func (c06) Case(c *core.Ctx) {
 		mut = 11
 		c.Count("accept:larger-than-a-size-the-tree-spells-out")
 	}
-	if mut != 9 && mut != 8 && mut != 7 && len(b) < 1<<16 {
+	if mut != 9 && mut != 8 && len(b) < 1<<16 {
 		c.NonTrivial("bytes", string(b))
 	}
 	useNumber := r.Intn(3) == 0
@@ -301,7 +309,9 @@ func (c06) Case(c *core.Ctx) {
 		c.Violate("c06-accepts-what-std-rejects:"+shape, "NewMapJson accepted an input whose first value encoding/json rejects or that is not an object/array", det)
 	case !wantErr && gerr != nil:
 		c.Violate("c06-rejects-what-std-accepts:"+shape, "NewMapJson rejected an input whose first value encoding/json decodes as an object or array", det)
-	case wantErr && len(got) != 0:
+	case wantErr && len(got) != 0 && !(wantMap != nil && jv.Equal(map[string]interface{}(got), wantMap)):
+		// (beside an error the Map is empty - or, for a value the std decoder read to its end but could not store
+		// completely, what the std decoder itself leaves in its target; the property does not say more)
 		c.Violate("c06-partial-map-on-error", "NewMapJson returned a non-empty Map together with an error", det)
 	case !wantErr && jv.Fp(got) != jv.Fp(wantMap):
 		c.Violate("c06-value-differs:"+shape, "NewMapJson returned a value different from encoding/json's", det)
